@@ -95,7 +95,7 @@ func TestC15(t *testing.T) {
 	}
 	rec.ReplayTier(judgeCase)
 
-	outKinds := []string{"", "", "same-dir", "abs", "nested-dir", "missing-dir", "is-dir"}
+	outKinds := []string{"", "", "same-dir", "cwd", "abs", "nested-dir", "missing-dir", "is-dir"}
 	pres := []string{"absent", "other", "identical", "stale-broken"}
 	rapidRun(t, env, "inputs", env.Pick(64, 1200), func(rt *rapid.T) {
 		p := genSmallProg(rt)
